@@ -392,6 +392,13 @@ def generate(rng, tier, index):
         else:
             inp = gen_input(rng, fk.split(".")[1], valid)
         inp["fn"] = fk.split(".")[1]
+        if not inp.get("malformed") and inp["cls"] != "euler":
+            conts = [("ndarray", 6), ("readonly", 1), ("fortran", 1), ("noncontig", 1)]
+            if inp["fn"] not in ("Umis", "ubi_to_u_and_eps"):
+                conts.append(("list", 1))      # these two call methods of the array and are documented for numpy arrays
+            inp["container"] = rng.weighted(conts)
+        elif inp["cls"] == "euler" and not inp.get("malformed"):
+            inp["container"] = rng.weighted([("float", 4), ("npfloat64", 1)])
         inputs.append(inp)
     # functions that can consume each input (same function name, either module)
     by_fn = {}
@@ -404,8 +411,19 @@ def generate(rng, tier, index):
     # how often the client reads `activated` back after an operation (a read is itself an event that a
     # lazily refreshed switch could depend on, so it must not happen after every step in every run)
     p_read = rng.choice([1.0, 0.5, 0.2, 0.0])
+    # the caller keeps its arrays and may overwrite one in place with the content of another (same function class)
+    mutable = [i for i, inp in enumerate(inputs) if not inp.get("malformed") and inp["cls"] != "euler"
+               and inp.get("container") != "list"]
+    p_mutate = rng.choice([0.0, 0.05, 0.15])
     for _ in range(n_ops):
         rd = 1 if rng.chance(p_read) else 0
+        if mutable and rng.chance(p_mutate):
+            dst = rng.choice(mutable)
+            srcs = [i for i, inp in enumerate(inputs) if i != dst and inp["fn"] == inputs[dst]["fn"]
+                    and not inp.get("malformed")]
+            if srcs:
+                ops.append(["mutate", dst, rng.choice(srcs)])
+                continue
         if rng.chance(p_assign):
             ops.append(["assign", _pick_assign(rng, allow_invalid_assign), rd])
         else:
@@ -537,12 +555,63 @@ def execute(trace):
             raise _Violation("switch state differs from last valid assignment", where,
                              "activated=%r model=%r" % (cur, on))
 
-    def call(fk, inp, inject=None):
+    slots = {}      # input id -> the caller's argument objects (created once, reused for every call)
+    loaded = {}     # input id -> index of the spec whose content the slot currently holds
+
+    def containerise(a, container):
+        if not isinstance(a, np.ndarray) or a.ndim != 2:
+            return a
+        if container == "readonly":
+            a = a.copy()
+            a.setflags(write=False)
+        elif container == "fortran":
+            a = np.asfortranarray(a)
+        elif container == "noncontig":
+            big = np.zeros((2 * a.shape[0], 2 * a.shape[1]), dtype=a.dtype)
+            big[::2, ::2] = a
+            a = big[::2, ::2]
+        elif container == "list":
+            a = a.tolist()
+        return a
+
+    def slot_of(iid):
+        if iid not in slots:
+            spec = inputs[iid]
+            args_ = decode_args(spec)
+            cont = spec.get("container", "ndarray")
+            if spec["cls"] == "euler" and cont == "npfloat64":
+                args_ = [np.float64(x) for x in args_]
+            slots[iid] = [containerise(a, cont) for a in args_]
+            loaded[iid] = iid
+        return slots[iid]
+
+    def overwrite(iid, src):
+        """the caller writes the content of spec `src` into the objects of slot `iid`, in place"""
+        dst_args = slot_of(iid)
+        src_args = decode_args(inputs[src])
+        for pos, (d_, s_) in enumerate(zip(dst_args, src_args)):
+            if isinstance(d_, np.ndarray) and isinstance(s_, np.ndarray) and d_.shape == s_.shape:
+                ro = not d_.flags.writeable
+                if ro:
+                    d_.setflags(write=True)
+                np.copyto(d_, s_.astype(d_.dtype))
+                if ro:
+                    d_.setflags(write=False)
+            else:
+                dst_args[pos] = s_
+        loaded[iid] = src
+
+    def spec_of(iid):
+        """the (validity, kind, hazard) the slot's current content has"""
+        slot_of(iid)
+        return inputs[loaded[iid]]
+
+    def call(fk, iid, inject=None):
         """inject: None | (line_event_index, callable) ; returns (outcome, value, n_line_events, fired)"""
         modname, fname = fk.split(".")
         fn = getattr(mods[modname], fname)
-        args = decode_args(inp)
-        keep = [a.copy() if isinstance(a, np.ndarray) else a for a in args]
+        args = slot_of(iid)
+        keep = [np.array(a, copy=True) if isinstance(a, np.ndarray) else a for a in args]
         nline = [0]
         fired = [False]
 
@@ -578,7 +647,15 @@ def execute(trace):
                 sys.settrace(None)
         for a, k in zip(args, keep):
             if isinstance(a, np.ndarray) and a.tobytes() != k.tobytes():
-                count("probe.input_mutated")
+                # the callee wrote into the caller's array: recorded, and the caller's content is put back so that
+                # later steps of the history see the input the trace says they see
+                count("probe.input_mutated_by_callee")
+                ro = not a.flags.writeable
+                if ro:
+                    a.setflags(write=True)
+                np.copyto(a, k)
+                if ro:
+                    a.setflags(write=False)
         return outcome, value, nline[0], fired[0]
 
     def judge(fk, iid, inp, outcome, value, states, where):
@@ -592,7 +669,7 @@ def execute(trace):
                 raise _Violation("valid input rejected" if outcome == "ValueError" else "valid input raised",
                                  fk, "%s kind=%s states=%s -> %s" % (inp["cls"], inp["kind"], sorted(states), value))
             cv = canon_value(value)
-            key = fk + "#" + str(iid)
+            key = fk + "#" + str(iid) + "<-" + str(loaded.get(iid, iid))
             if key in first_value:
                 if first_value[key][0] != cv:
                     raise _Violation("valid input: returned value differs between calls/switch states", fk,
@@ -633,18 +710,29 @@ def execute(trace):
                     if len(op) < 3 or op[2]:
                         check_switch("assign")
                         count("reads.after_assign")
+                elif kind == "mutate":
+                    dst, src = op[1], op[2]
+                    if max(dst, src) >= len(inputs) or inputs[dst] is None or inputs[src] is None:
+                        continue
+                    if inputs[dst]["fn"] != inputs[src]["fn"] or inputs[dst].get("malformed") or inputs[src].get("malformed") \
+                            or inputs[dst].get("container") == "list" or inputs[dst]["cls"] == "euler":
+                        continue
+                    overwrite(dst, src)
+                    count("fault.caller_overwrites_array_in_place")
+                    events.append([opi, "mutate", dst, src])
                 elif kind in ("call", "pcall"):
                     fk, iid = op[1], op[2]
                     if iid >= len(inputs) or inputs[iid] is None:
                         continue
-                    inp = inputs[iid]
-                    if FN_INPUT[fk.split(".")[1]] != inp["cls"]:
+                    if FN_INPUT[fk.split(".")[1]] != inputs[iid]["cls"]:
                         continue
+                    inp = spec_of(iid)
                     n_call += 1
                     cls_tag = "valid" if inp["valid"] else ("malformed" if inp.get("malformed") else "invalid")
                     if kind == "call":
-                        outcome, value, _, _ = call(fk, inp)
+                        outcome, value, _, _ = call(fk, iid)
                         count("tt.%s|call|%s|%s" % (int(on), fk, cls_tag))
+                        count("container.%s" % inputs[iid].get("container", "n/a"))
                         if outcome != "ok":
                             count("fault.exception_out_of_guarded_call")
                         events.append([opi, "call", fk, iid, outcome, core.digest(canon_value(value))[:16]])
@@ -654,7 +742,7 @@ def execute(trace):
                     else:
                         k, tag = op[3], op[4]
                         # pass 1: plain traced call, counts the pre-emption points and is itself judged
-                        outcome, value, nline, _ = call(fk, inp, inject=(-1, None))
+                        outcome, value, nline, _ = call(fk, iid, inject=(-1, None))
                         judge(fk, iid, inp, outcome, value, {on}, fk)
                         if nline == 0:
                             raise core.HarnessError("no line events traced inside %s" % fk)
@@ -670,14 +758,14 @@ def execute(trace):
                             if iid2 >= len(inputs) or inputs[iid2] is None or \
                                     FN_INPUT[fk2.split(".")[1]] != inputs[iid2]["cls"]:
                                 continue
-                            inp2 = inputs[iid2]
+                            inp2 = spec_of(iid2)
 
                             def action():
-                                res["second"] = call(fk2, inp2)
+                                res["second"] = call(fk2, iid2)
                         else:
                             def action():
                                 res["raised"] = do_assign(tag)
-                        outcome, value, nline2, fired = call(fk, inp, inject=(at, action))
+                        outcome, value, nline2, fired = call(fk, iid, inject=(at, action))
                         if second_call:
                             count("fault.preempting_guarded_call")
                             count("preempt_point.%s@%d" % (fk, at))
@@ -768,6 +856,7 @@ def shrink_candidates(trace):
             yield t
     used = set(op[2] for op in ops if op[0] in ("call", "pcall"))
     used |= set(op[4][2] for op in ops if op[0] == "pcall" and isinstance(op[4], list))
+    used |= set(x for op in ops if op[0] == "mutate" for x in op[1:3])
     for i, inp in enumerate(trace["inputs"]):
         if inp is None:
             continue
@@ -779,6 +868,8 @@ def shrink_candidates(trace):
             t = copy.deepcopy(trace)
             s = simplest_input(inp["fn"], inp["valid"])
             s["fn"] = inp["fn"]
+            if "container" in inp:
+                s["container"] = inp["container"]
             t["inputs"][i] = s
             yield t
 
